@@ -44,17 +44,31 @@ NormOp(o) == IF "keep" \in DOMAIN o THEN [o EXCEPT !.keep = SetOf(@)] ELSE o
 
 Init == l = 1 /\ content = {}
 
+\* WINDOWED events (containers of more than 65 536 entries): `s` and `p` list the WATCHED entries only;
+\* `hid` / `hid2` = the number of entries outside the window before / after the call, `hsum` / `hsum2` a
+\* checksum over every hidden entry (objects and contents). The calls recorded this way (inserts, lookups,
+\* removals, Entry API, get_disjoint_mut, insert_unchecked) speak about watched keys only, so the ideal
+\* dictionary's verdict is DictAllows on the window at the capacity the hidden entries leave, and the
+\* hidden part must be exactly what it was. Ordinary events have no such fields (hid = 0).
+Hid(e)  == IF "hid" \in DOMAIN e THEN e.hid ELSE 0
+Hid2(e) == IF "hid2" \in DOMAIN e THEN e.hid2 ELSE 0
+HiddenUntouched(e) == ("hid" \in DOMAIN e) => (e.hid2 = e.hid /\ e.hsum2 = e.hsum)
+WindowNames == {"insert", "insert_key_value", "checked_insert", "insert_unchecked", "get", "get_key_value", "contains_key", "index",
+                "get_mut", "index_mut", "remove", "remove_entry", "entry", "disjoint"}
+
 \* the three groups of conjuncts, so that a rejection can say which one failed
 PostOf(e) == {Ent(x) : x \in SetOf(e.p)}
 WellFormedEv(e) ==                                            \* C05 / C03 in every observed state
   LET D == TagPre(e.s, e.mode) IN
-  /\ Cardinality(D) = Len(e.s) /\ Dict!DUniqueKeys(D) /\ Len(e.s) <= e.n
-  /\ Dict!DUniqueKeys(PostOf(e)) /\ Cardinality(PostOf(e)) = Len(e.p) /\ Len(e.p) <= e.n
-  /\ e.len = Len(e.p) /\ e.empty = (Len(e.p) = 0)            \* len() / is_empty() agree with iteration
+  /\ Cardinality(D) = Len(e.s) /\ Dict!DUniqueKeys(D) /\ Len(e.s) + Hid(e) <= e.n
+  /\ Dict!DUniqueKeys(PostOf(e)) /\ Cardinality(PostOf(e)) = Len(e.p) /\ Len(e.p) + Hid2(e) <= e.n
+  /\ e.len = Len(e.p) + Hid2(e) /\ e.empty = (e.len = 0)     \* len() / is_empty() agree with iteration
+  /\ HiddenUntouched(e)
+  /\ ("hid" \in DOMAIN e) => e.o.name \in WindowNames
 InstrumentsOK(e) == e.viol = <<>>                             \* nothing destroyed twice, no dead data used
 Allowed(e) ==
   LET res == [ret |-> e.r, post |-> PostOf(e), dk |-> SetOf(e.dk), dv |-> SetOf(e.dv), lk |-> SetOf(e.lk), lv |-> SetOf(e.lv)]
-  IN Dict!DictAllows(TagPre(e.s, e.mode), e.n, NormOp(e.o), res)
+  IN Dict!DictAllows(TagPre(e.s, e.mode), e.n - Hid(e), NormOp(e.o), res)
 
 \* A call during which user code panicked (the harness injected a panic into one of its
 \* callbacks): C04 tolerates leaks and an arbitrary - but well-formed - outcome.  What must hold:
@@ -77,7 +91,10 @@ EventOK(e) ==
 Step ==
   /\ l <= Len(Rec)
   /\ EventOK(Rec[l])
-  /\ content' = IF Rec[l].o.name = "reset" THEN {} ELSE Untag({Ent(x) : x \in SetOf(Rec[l].p)})
+  \* (a windowed history starts from a container the harness has filled itself: `init` = the watched entries)
+  /\ content' = IF Rec[l].o.name = "reset"
+                THEN (IF "init" \in DOMAIN Rec[l] THEN {<<x[1], x[2], x[3]>> : x \in SetOf(Rec[l].init)} ELSE {})
+                ELSE Untag({Ent(x) : x \in SetOf(Rec[l].p)})
   /\ l' = l + 1
 
 Spec == Init /\ [][Step]_vars
